@@ -408,6 +408,9 @@ class _JoinRun:
                 return d[1] if d[0] == "param" else "[" + ", ".join(d[1]) + "]"
             return e.id
         if isinstance(e, (ast.List, ast.Tuple)):
+            # [x] with x the only element of L is L
+            if len(e.elts) == 1 and isinstance(e.elts[0], ast.Name) and str(self.origin.get(e.elts[0].id, "")).startswith("only:"):
+                return str(self.origin[e.elts[0].id])[len("only:"):]
             return "[" + ", ".join(A.unparse(x) for x in e.elts) + "]"
         return A.unparse(e)
 
